@@ -443,6 +443,10 @@ func (rs *RelationService) createTable(r *Relation, tableName string) error {
 	if err != ErrTableNotExist {
 		return ErrTableAlreadyExist
 	}
+	// refuse a catalog row that cannot be stored before anything is changed
+	if err := checkCatalogRows(r, tableName); err != nil {
+		return err
+	}
 
 	pg, err := rs.createPage()
 	if err != nil {
@@ -464,14 +468,50 @@ func (rs *RelationService) createPage() (*btreeNode, error) {
 	return rootPg, nil
 }
 
-func (rs *RelationService) insertPageTable(node *btreeNode, tableName string) error {
-	tuple := Tuple{
+// checkCatalogRows reports the error CREATE TABLE would run into while adding
+// the table's rows to the catalog (a name too long for a cell, a length out
+// of range).
+func checkCatalogRows(r *Relation, tableName string) error {
+	rows := []Tuple{pageTableTuple(tableName, 0)}
+	for _, fd := range r.Fields {
+		rows = append(rows, schemaTableTuple(tableName, fd))
+	}
+	for _, row := range rows {
+		buf, err := row.Encode()
+		if err != nil {
+			return err
+		}
+		if err := checkRowSizeLimit(buf.Bytes()); err != nil {
+			return err
+		}
+	}
+	return nil
+}
+
+func pageTableTuple(tableName string, fileOffset uint64) Tuple {
+	return Tuple{
 		Relation: &pageTableSchema,
 		Vals: map[string]interface{}{
 			"table_name":  tableName,
-			"file_offset": int64(node.getFileOffset()), // todo wat?
+			"file_offset": int64(fileOffset), // todo wat?
 		},
 	}
+}
+
+func schemaTableTuple(tableName string, fd FieldDef) Tuple {
+	return Tuple{
+		Relation: &schemaTableSchema,
+		Vals: map[string]interface{}{
+			"table_name":   tableName,
+			"field_name":   fd.Name,
+			"field_type":   int64(fd.DataType),
+			"field_length": fd.Len,
+		},
+	}
+}
+
+func (rs *RelationService) insertPageTable(node *btreeNode, tableName string) error {
+	tuple := pageTableTuple(tableName, node.getFileOffset())
 
 	buf, err := tuple.Encode()
 	if err != nil {
@@ -581,15 +621,7 @@ func (rs *RelationService) insertSchemaTable(r *Relation, tableName string) erro
 	bt := &BTree{store: rs.fs}
 
 	for _, fd := range r.Fields {
-		tuple := Tuple{
-			Relation: &schemaTableSchema,
-			Vals: map[string]interface{}{
-				"table_name":   tableName,
-				"field_name":   fd.Name,
-				"field_type":   int64(fd.DataType),
-				"field_length": fd.Len,
-			},
-		}
+		tuple := schemaTableTuple(tableName, fd)
 
 		buf, err := tuple.Encode()
 		if err != nil {
